@@ -43,8 +43,12 @@ func main() {
 	samples := flag.Int("samples", 8, "passing-path samples to keep")
 	perKey := flag.Int("per-key", 3, "violations kept per distinct key")
 	verbose := flag.Bool("v", false, "verbose")
+	selftest := flag.Int("selftest-regex", 0, "validate the regexp model against the real regexp package on regex bodies of up to N atoms and exit")
 	flag.Parse()
 	interp.SolverCmd = strings.Fields(*solverCmd)
+	if *selftest > 0 {
+		os.Exit(selfTestRegex(*selftest))
+	}
 
 	t0 := time.Now()
 	cfg := &packages.Config{Mode: packages.LoadAllSyntax, Dir: *dir, BuildFlags: []string{"-tags=" + *tags},
@@ -127,4 +131,51 @@ func summary(h string, st *interp.Stats) {
 	for _, e := range st.SolverErrors {
 		fmt.Printf("    SOLVER-ERROR %s\n", e)
 	}
+}
+
+// selfTestRegex: every regex that pattern.compile can emit for patterns of up
+// to 3 symbols over the C12 alphabet (with the four anchorings) against every
+// subject of up to 4 symbols over the subject alphabet.
+func selfTestRegex(depth int) int {
+	alpha := []string{"a", "b", ".", ".*", ".*?", "[ab]", "[^a]", "[a-b]", "\\.", "\\*", "\\[", "-", "\n", "(?s:.)", "(?s:.*)", "(?s:.*?)", "[[:alpha:]]", "é"}
+	var bodies []string
+	var gen func(prefix string, k int)
+	gen = func(prefix string, k int) {
+		bodies = append(bodies, prefix)
+		if k == 0 {
+			return
+		}
+		for _, a := range alpha {
+			gen(prefix+a, k-1)
+		}
+	}
+	gen("", depth)
+	var regexes []string
+	for _, b := range bodies {
+		regexes = append(regexes, "^("+b+")", "("+b+")$", "^("+b+")$", "^("+b+"|a)$")
+	}
+	sub := []string{"a", "b", "-", ".", "\n", "é", "]"}
+	var subjects []string
+	var gs func(prefix string, k int)
+	gs = func(prefix string, k int) {
+		subjects = append(subjects, prefix)
+		if k == 0 {
+			return
+		}
+		for _, a := range sub {
+			gs(prefix+a, k-1)
+		}
+	}
+	gs("", 3)
+	n, bad := interp.SelfTestRegex(regexes, subjects)
+	fmt.Printf("regexp model self-test: %d (regex, subject) cases, %d disagreements\n", n, len(bad))
+	for i, b := range bad {
+		if i < 10 {
+			fmt.Println("  ", b)
+		}
+	}
+	if len(bad) > 0 {
+		return 2
+	}
+	return 0
 }
